@@ -10,6 +10,7 @@ PROP_FILE = "C19.v"
 KINDS = {  # shard prefix -> (jsonl file, label used in violation keys)
     "rcases": ("rcases.jsonl", "redact"),
     "pcases": ("pcases.jsonl", "parse"),
+    "ocases": ("ocases.jsonl", "logmode"),
     "fcases": ("fcases.jsonl", "describe"),
     "ecases": ("ecases.jsonl", "binary"),
 }
@@ -166,7 +167,8 @@ def run(ctx):
                 "over 92 printable ASCII characters incl. : @ %% / blank quote backslash; same and different lengths; no password; nil) through "
                 "bind.RedactUserinfo, bind.RedactURL, forwarder.RedactHostPortUser, bind.RedactBase64; parse: pairs of ARGUMENT STRINGS "
                 "`user:password[@host:port]` (passwords with : @ %%, user names containing @ or the password, refused forms) through "
-                "forwarder.ParseUserinfo / ParseHostPortUser and then the redact function, against the model's parsers; describe: the real `forwarder run` flag "
+                "forwarder.ParseUserinfo / ParseHostPortUser and then the redact function, against the model's parsers; logmode: 1..4 --log-http occurrences of 1..3 entries each (named api:/proxy: or unnamed, "
+                "6 modes) through bind.HTTPLogConfig on a real pflag set, the modes both modules end up in; describe: the real `forwarder run` flag "
                 "set parsed from arguments (random subset of 8 secret-bearing flags) and dumped by FlagsDescriber OneLine and Plain, twice; "
                 "binary: the real binary started twice per case with secrets s1 != s2 of equal length via flags / FORWARDER_* environment / "
                 "JSON config file, log level error|info|debug, log-http none|short-url|url|errors, text and json log format, with and "
